@@ -2136,3 +2136,109 @@ type KSE struct {
 '''),
 }
 LOOP_BODIES.update(LOOP_BODIES4)
+
+LOOP_BODIES5 = {
+    "deep_nesting": ('''
+type InnerD struct {
+	name string
+	tags Strs
+	arr  Arr2D
+	p    *S
+}
+
+type Arr2D [2]string
+
+type Inner2D [2]InnerD
+
+type InnersD []InnerD
+
+type MVD struct {
+	name string
+	tags Strs
+	p    *S
+}
+
+type DeepD struct {
+	a    Inner2D
+	s    InnersD
+	m    map[string]MVD
+	next *DeepD
+}
+
+type EmbD struct {
+	InnerD
+	extra string
+}
+
+func mkInnerD(k int) InnerD {
+	return InnerD{name: "in" + itoa(k), tags: []string{"t" + itoa(k), "u"}, arr: Arr2D{"x" + itoa(k), "y"}, p: &S{int32(k), "ps" + itoa(k)}}
+}
+
+func mkDeepD(k int) *DeepD {
+	d := &DeepD{m: map[string]MVD{}}
+	d.a[0] = mkInnerD(k)
+	d.a[1] = mkInnerD(k + 1)
+	d.s = append(d.s, mkInnerD(k+2), d.a[0])
+	d.m["k"] = MVD{d.a[1].name, d.a[1].tags, d.a[1].p}
+	d.m["l"] = MVD{"l" + itoa(k), []string{"lt"}, &S{1, "lp"}}
+	return d
+}
+''', '''
+	d := mkDeepD(i)
+	d.next = mkDeepD(i + 1)
+	c := *d
+	c.a[0].tags = append(c.a[0].tags, "more"+itoa(i))
+	c.s[1].arr[1] = "chg" + itoa(i)
+	v := c.m["k"]
+	v.name = v.name + "!"
+	c.m["k"] = v
+	e := EmbD{InnerD: d.a[1], extra: "ex" + itoa(i)}
+	e.tags = append(e.tags, e.extra)
+	ds := []DeepD{c, *d.next}
+	d = nil
+	n := int32(len(ds[0].a[0].tags) + len(ds[1].s) + len(e.name) + len(e.tags))
+	return n + ds[0].m["k"].p.a
+'''),
+}
+LOOP_BODIES.update(LOOP_BODIES5)
+
+LOOP_BODIES6 = {
+    "field_of_struct_result": ('''
+func mkWF(i int) W {
+	return W{s: []int32{int32(i), 3}, name: "wf" + itoa(i), p: &S{int32(i), "pf" + itoa(i)}}
+}
+
+type HoldF struct {
+	w   W
+	arr Arr3F
+}
+
+type Arr3F [3]string
+
+func mkHoldF(i int) HoldF {
+	return HoldF{w: mkWF(i), arr: Arr3F{"a" + itoa(i), "b", "c" + itoa(i)}}
+}
+''', '''
+	n := int32(len(mkWF(i).name)) + mkWF(i).s[1] + int32(len(mkWF(i).p.b)) + int32(len(mkWF(i).s))
+	n += int32(len(mkHoldF(i).w.name)) + mkHoldF(i).w.p.a
+	h := mkHoldF(i)
+	n += int32(len(h.arr[2]))
+	return n
+'''),
+    "field_then_index_of_array_in_result": ('''
+type Arr3G [3]string
+
+type HoldG struct {
+	name string
+	arr  Arr3G
+}
+
+func mkHoldG(i int) HoldG {
+	return HoldG{name: "g" + itoa(i), arr: Arr3G{"a" + itoa(i), "b", "c" + itoa(i)}}
+}
+''', '''
+	return int32(len(mkHoldG(i).arr[2]) + len(mkHoldG(i).name))
+'''),
+}
+LOOP_BODIES.update(LOOP_BODIES6)
+KNOWN_CAUSE["loop:field_then_index_of_array_in_result"] = "array-value-IndexOf-helper-keeps-a-count"
